@@ -17,6 +17,7 @@ import (
 	"sort"
 	"strings"
 
+	"gitlab.com/gomidi/midi/v2/internal/verifh/disturb"
 	"gitlab.com/gomidi/midi/v2/internal/verifh/engine"
 	"gitlab.com/gomidi/midi/v2/internal/verifh/faultio"
 	"gitlab.com/gomidi/midi/v2/internal/verifh/refsmf"
@@ -374,6 +375,7 @@ func family() (files [][]byte, names []string) {
 
 func main() {
 	ctx = engine.Start("C09", "fault_enumeration")
+	disturb.Install(ctx)
 	if ctx.ReplayPath != "" {
 		replay()
 		return
